@@ -85,7 +85,22 @@ def main(n, seed):
                         out.append((kind, k, "raised " + type(e).__name__))
                 return out
 
-            a, b = run(mk(True)), run(mk(False))
+            lazy_idx = mk(True)
+            late = rnd.random() < 0.3
+            if late:
+                # the directory objects are not in storage at first (not fetched yet) and failures are reported through a
+                # non-raising onerror; some accesses happen; the objects arrive; from then on the index answers like the expanded one
+                lazy_idx.onerror = lambda *a_: None
+                dirobjs = [odb.oid_to_path(o) for o in odb.all() if o.endswith(".dir")]
+                for p_ in dirobjs:
+                    os.rename(p_, p_ + ".away")
+                saved_ops = ops
+                ops = ops[: rnd.randint(1, len(ops))]
+                run(lazy_idx)
+                ops = saved_ops
+                for p_ in dirobjs:
+                    os.rename(p_ + ".away", p_)
+            a, b = run(lazy_idx), run(mk(False))
             problem = None
             if a != b:
                 i = next(i for i, (x, y) in enumerate(zip(a, b)) if x != y)
@@ -101,9 +116,9 @@ def main(n, seed):
                         if sorted(res) != sorted(x for x in want if x != () ):
                             problem = f"view.iteritems({k}) = {res[:4]} but the keys satisfying the filter are {want[:4]}"
             if problem:
-                fails.append({"listing": {t: ["/".join(k) for k in v] for t, v in listing.items()}, "filter_excludes": banned, "ops": ops, "problem": problem})
+                fails.append({"listing": {t: ["/".join(k) for k in v] for t, v in listing.items()}, "filter_excludes": banned, "ops": ops, "directory_objects_arrive_late": late, "problem": problem})
     return {"evaluations": n, "distinct_nontrivial": len(distinct), "failures": fails[:3], "n_failures": len(fails),
-            "bound": "<= 2 directory objects (<= 5 files, depth <= 3), <= 2 loose files, <= 4 access operations, in-memory index"}
+            "bound": "<= 2 directory objects (<= 5 files, depth <= 3), <= 2 loose files, <= 4 access operations, in-memory index; in 3 of 10 cases the directory objects arrive in storage only after some accesses (non-raising onerror)"}
 
 
 if __name__ == "__main__":
